@@ -68,7 +68,9 @@ class Expression:
         return None
 
     def functionalize(self, out, flags, is_generator=False):
-        name = f'_parse_function_{self.program_id}'
+        # Not '_parse_...': those names belong to the rules of the grammar (a rule
+        # may well be called 'function_5').
+        name = f'_function_{self.program_id}'
 
         extras = ['_ctx'] if flags.uses_context else []
         params = extras + [str(TEXT), str(POS)] + list(sorted(self.freevars()))
